@@ -9,6 +9,8 @@ several compositions into batches (empty batches, batches shorter than the windo
  last      expanding().{sum,count,mean,var,std} and ewm(com|span|alpha|halflife).mean() emit one value per batch; after
            batch k (prefix non-empty) it equals the one-pass pandas value at the last row of the prefix (for ewm only
            the values of the emitted one-row object are compared; its label is the first row ever seen).
+ sum0      expanding().sum() over a prefix without any valid observation: streamz reports 0 (the pandas .sum() convention),
+           pandas expanding(min_periods=1).sum() reports NaN; this is normalised (pandas is asked with min_periods=0) and counted.
  raise     emit() raising although rows have been seen is a violation; on an empty prefix it is only counted, the
            later values must still be right.
 The pandas call uses the same arguments the streaming call was given (rolling(window) with pandas' default min_periods).
@@ -40,7 +42,7 @@ def plan(tier):
 
 
 def n_tables(tier):
-    return 75 if tier == 'thorough' else 13
+    return 200 if tier == 'thorough' else 28
 
 
 def _target(rng):
@@ -110,7 +112,7 @@ def check_case(case, ctx):
     eff = [E.p_root(op, b) for b in batches]
     lens = [len(e) for e in eff]
     targets = [E.p_target(op, e) for e in eff]
-    cls = E.input_class(targets, batch_end=True)
+    cls = E.input_class(targets, batch_end=fam in ('cum', 'roll'))
     label = E.op_label(op, targets[0])
     ctx.note('operations', label)
     ctx.note('input_classes', cls)
@@ -207,6 +209,14 @@ def check_case(case, ctx):
                 continue
             got = E.last_row_values(got)
         d = E.compare(got, exp)
+        if d is not None and fam == 'exp' and op['agg'] == 'sum':
+            # Sum of no valid observation: streamz says 0 (like pandas .sum()), pandas expanding(min_periods=1) says NaN.
+            # The same convention on both sides (min_periods=0) must then agree.
+            alt = dict(op, agg='sum0')
+            exp0 = E.p_onepass(root_full, alt).iloc[cum - 1]
+            if E.compare(got, exp0) is None:
+                ctx.count('sum_of_no_observation_0_vs_nan_normalised')
+                d = None
         if d is not None:
             ctx.violate('%s@%s:%s' % (d[0], label, cls), '%s -> after batch %d emitted %s, pandas in one pass gives %s at the last '
                         'row of the prefix (%s); emitted sequence %s' % (head, k + 1, E.show(got), E.show(exp), d[1], seq), case)
